@@ -148,6 +148,15 @@ theorem C05_patch_region_sound (baseGrid refGrid : Region) (px0 py0 pw ph : Nat)
 example : (patchGeom ⟨0, 0, 6, 6⟩ ⟨0, 0, 8, 8⟩ 1 1 3 3 (-1) 4).targetPatch = ⟨0, 4, 2, 2⟩ := by decide
 example : (patchGeom ⟨0, 0, 6, 6⟩ ⟨0, 0, 8, 8⟩ 1 1 3 3 (-1) 4).newX = 2 := by decide
 
+/-- **Witness of the defect repaired in `blend::patch` (upsampled frames).** While features are
+rendered the buffers of a 2x upsampled 12x12 frame are 6x6 but its region is already labelled
+12x12. Clipping the target against the label (the unrepaired code) keeps a 3x3 target at (8, 8)
+whole — outside the 6x6 buffer; clipping against the region in buffer coordinates (`downsample` by
+the channel shift, the repaired code and the premise `baseGrid` = buffer of the theorem above) drops it. -/
+theorem C05_unrepaired_patch_on_upsampled_frame_leaves_buffer :
+    (patchGeom ⟨0, 0, 12, 12⟩ ⟨0, 0, 6, 6⟩ 0 0 3 3 8 8).targetPatch = ⟨8, 8, 3, 3⟩ ∧
+    (patchGeom ((⟨0, 0, 12, 12⟩ : Region).downsample 1) ⟨0, 0, 6, 6⟩ 0 0 3 3 8 8).w = 0 := by decide
+
 
 /-- `composite` as it was before the repair (commit a89eeeb): the request is padded for filters and
 upsampling before it is handed to `blend()` — and through it to the blending source. -/
